@@ -7,6 +7,7 @@ print cwd/$1/$2/$3), and must agree everywhere.
 """
 import json
 import os
+import sys
 import random
 import shutil
 import subprocess
@@ -619,4 +620,115 @@ def exec_part(tier, d, verdict, bindir, pid='C13'):
         verdict.violation('exec:firstline', rp,
                           '%d first lines of a .do file are not run as RedoExec says, e.g. %r: %s'
                           % (len(bad), bad[0]['first_line'], '; '.join(bad[0]['problems'])[:400]))
+    return cov, tool
+
+
+# ------------------------------------------------------------------------------------------------ which jobserver (C08)
+def setup_part(tier, d, verdict, bindir, pid='C08'):
+    """RedoSetup (parse_makeflags + JobServer::setup) evaluated by TLC on every MAKEFLAGS of up to 4 tokens x REDO_CHEATFDS x
+    -j; a sample of the configurations (all those in which the parent's jobserver is taken over) is given to a real `redo`
+    with descriptors 60-63 open: exit status, own/inherited jobserver, cheat pipe and warning must be the predicted ones."""
+    import random
+    import subprocess
+    from concurrent.futures import ThreadPoolExecutor
+    cov, tool = {}, []
+    res, rows = run_mc('MC_Setup', {'MaxTok': 4}, ['P1', 'P2', 'P3', 'P4', 'Export'], d, workers=6, heap='6g')
+    cov['setup_configurations'] = res.distinct
+    if res.error:
+        tool.append('MC_Setup: ' + res.error)
+        return cov, tool
+    if res.violated:
+        rp = os.path.join(d, 'counterexample_setup.txt')
+        open(rp, 'w').write('RedoSetup violates %s\n\n%s' % (res.violated, res.trace))
+        verdict.violation('spec:setup:%s' % res.violated, rp, 'RedoSetup violates %s' % res.violated)
+        return cov, tool
+    names = {'A': '--jobserver-auth=', 'F': '--jobserver-fds='}
+    table = []
+    for r in rows:
+        flags = ''.join(names.get(t, t) for t in jl(r['toks']))
+        table.append((flags, js(r['cheat']), r['j'], r['r']))
+    table.sort(key=lambda x: (x[0], x[1], x[2]))
+    rnd = random.Random(common.seed())
+    must = [t for t in table if t[3]['rc'] == 0 and (not t[3]['own'] or t[3]['warn'])]
+    rest = [t for t in table if t not in must]
+    rnd.shuffle(rest)
+    by = {}
+    for t in rest:      # the same number of each outcome class
+        by.setdefault((t[3]['rc'], t[3]['cheat']), []).append(t)
+    per = 60 if tier == 'quick' else 600
+    chosen = must[:200] + [t for k in sorted(by) for t in by[k][:per]]
+    root = os.path.join(d, 'setup')
+    shutil.rmtree(root, ignore_errors=True)
+    base_env = {k: v for k, v in os.environ.items() if not k.startswith('REDO') and k not in ('MAKEFLAGS', 'MFLAGS', 'MAKELEVEL')}
+    base_env['PATH'] = bindir + ':' + base_env.get('PATH', '/usr/bin:/bin')
+    base_env['REDO_LOG'] = '0'
+
+    def one(iv):
+        i, (flags, cheat, j, want) = iv
+        pd = os.path.join(root, 'p%05d' % i)
+        os.makedirs(pd)
+        with open(os.path.join(pd, 't.do'), 'w') as f:
+            f.write('echo built\n')
+        trace = os.path.join(pd, 'trace.ndjson')
+        env = dict(base_env, MAKEFLAGS=flags, REDO_VERIF_TRACE=trace)
+        if cheat:
+            env['REDO_CHEATFDS'] = cheat
+
+        # descriptors 60/61: the parent's token pipe (empty), 62/63: the parent's cheat pipe; made by a launcher process of
+        # its own (a fresh interpreter has only low descriptors open, so nothing is clobbered), which then becomes redo
+        launcher = ('import os,sys\n'
+                    'a,b=os.pipe(); c,e=os.pipe()\n'
+                    'for s_,d_ in ((a,60),(b,61),(c,62),(e,63)):\n'
+                    '    os.dup2(s_,d_); os.set_inheritable(d_,True)\n'
+                    'os.execvp(sys.argv[1], sys.argv[1:])\n')
+        argv = [sys.executable, '-c', launcher, 'redo'] + (['-j%d' % j] if j else []) + ['t']
+        r = subprocess.run(argv, cwd=pd, env=env, stdin=subprocess.DEVNULL, stdout=subprocess.PIPE, stderr=subprocess.PIPE,
+                           timeout=60)
+        err = r.stderr.decode('utf-8', 'replace')
+        ev = None
+        if os.path.exists(trace):
+            for ln in open(trace):
+                if '"JsSetup"' in ln:
+                    try:
+                        ev = json.loads(ln)
+                    except ValueError:
+                        pass
+                    break
+        problems = []
+        if 'panicked' in err or r.returncode == 101:
+            problems.append('redo aborted: ' + err[-300:])
+        elif want['rc'] == 200 and r.returncode != 200:
+            problems.append('exit status %s, RedoSetup says 200 (descriptors refused): %s' % (r.returncode, err[-200:]))
+        elif want['rc'] == 1 and r.returncode in (0, 200):
+            problems.append('exit status %s, RedoSetup says the start fails (invalid REDO_CHEATFDS)' % r.returncode)
+        elif want['rc'] == 0:
+            if r.returncode != 0:
+                problems.append('exit status %s, RedoSetup says the build goes ahead: %s' % (r.returncode, err[-200:]))
+            elif ev is None:
+                problems.append('no JsSetup event recorded')
+            else:
+                if bool(ev.get('own')) != want['own']:
+                    problems.append('jobserver of its own: %s, RedoSetup says %s' % (ev.get('own'), want['own']))
+                if (ev.get('cheatfd') == 62) != (want['cheat'] == 'inherit'):
+                    problems.append('cheat pipe descriptor %s, RedoSetup says %s' % (ev.get('cheatfd'), want['cheat']))
+                if ('forced in sub-redo' in err) != want['warn']:
+                    problems.append('warning about -j in a sub-redo: %s, RedoSetup says %s' % ('forced in sub-redo' in err, want['warn']))
+        if not problems:
+            shutil.rmtree(pd, ignore_errors=True)
+        return (flags, cheat, j, want), problems, pd
+
+    bad = []
+    with ThreadPoolExecutor(max_workers=8) as ex:
+        for cfg, problems, pd in ex.map(one, enumerate(chosen)):
+            if problems:
+                bad.append({'MAKEFLAGS': cfg[0], 'REDO_CHEATFDS': cfg[1], 'j': cfg[2], 'predicted': cfg[3], 'problems': problems, 'dir': pd})
+    cov['setup_real_runs'] = len(chosen)
+    cov['setup_real_runs_agreeing'] = len(chosen) - len(bad)
+    cov['setup_inherit_configurations_run'] = len([t for t in chosen if t[3]['rc'] == 0 and not t[3]['own']])
+    if bad:
+        rp = os.path.join(d, 'setup_mismatch.json')
+        json.dump(bad, open(rp, 'w'), indent=1)
+        verdict.violation('setup:jobserver', rp,
+                          '%d start-up configurations do not behave as RedoSetup says, e.g. MAKEFLAGS=%r REDO_CHEATFDS=%r -j%s: %s'
+                          % (len(bad), bad[0]['MAKEFLAGS'], bad[0]['REDO_CHEATFDS'], bad[0]['j'], '; '.join(bad[0]['problems'])[:400]))
     return cov, tool
